@@ -122,8 +122,28 @@ type expr struct {
 func genExpr(rng *rand.Rand, depth int) *expr {
 	if depth <= 0 || rng.Intn(4) == 0 {
 		lits := []string{"0", "1", "2", "7", "10", "-3", "+4", "0x10", "017", "999", "9223372036854775807", "-9223372036854775808", "3037000500"}
-		if rng.Intn(3) == 0 {
+		switch rng.Intn(4) {
+		case 0:
 			return &expr{lit: lits[rng.Intn(len(lits))]}
+		case 1:
+			// a literal in a random base: hexadecimal with digits of either case and either prefix, octal, decimal;
+			// optionally signed (every one of them is in Integer's documented language and in strconv.ParseInt(s, 0, 64)'s)
+			sign := []string{"", "", "-", "+"}[rng.Intn(4)]
+			digits := func(al string, n int) string {
+				b := make([]byte, n)
+				for k := range b {
+					b[k] = al[rng.Intn(len(al))]
+				}
+				return string(b)
+			}
+			switch rng.Intn(3) {
+			case 0:
+				return &expr{lit: sign + []string{"0x", "0X"}[rng.Intn(2)] + digits("0123456789abcdefABCDEF", 1+rng.Intn(5))}
+			case 1:
+				return &expr{lit: sign + "0" + digits("01234567", 1+rng.Intn(5))}
+			default:
+				return &expr{lit: sign + digits("123456789", 1) + digits("0123456789", rng.Intn(6))}
+			}
 		}
 		return &expr{lit: strconv.Itoa(rng.Intn(50) - 5)}
 	}
